@@ -1193,7 +1193,7 @@ const COLORS: [RGBA; 16] = [
     RGBA::new(255, 255, 255, 255),
 ];
 
-fn sgr_color<'a>(mut cmds: impl Iterator<Item = &'a [u8]>) -> Option<RGBA> {
+fn sgr_color<'a>(mut cmds: impl Iterator<Item = &'a [u8]>, sub_params: bool) -> Option<RGBA> {
     match number_decode(cmds.next()?)? {
         5 => {
             // color from 256 color palette
@@ -1217,9 +1217,21 @@ fn sgr_color<'a>(mut cmds: impl Iterator<Item = &'a [u8]>) -> Option<RGBA> {
         }
         2 => {
             // true color
-            //
-            // It can contain either three or four components
-            // in the case of four first component is ignored
+            if !sub_params {
+                // `;` separated form always has exactly three components, anything
+                // that follows is an independent SGR parameter
+                let r = number_decode(cmds.next()?)?;
+                let g = number_decode(cmds.next()?)?;
+                let b = number_decode(cmds.next()?)?;
+                return Some(RGBA::new(
+                    r.min(255) as u8,
+                    g.min(255) as u8,
+                    b.min(255) as u8,
+                    255,
+                ));
+            }
+            // `:` separated form can contain either three or four components
+            // in the case of four first component (color space id) is ignored
             match [
                 cmds.next().and_then(number_decode),
                 cmds.next().and_then(number_decode),
@@ -1252,9 +1264,9 @@ fn sgr_face(data: &[u8]) -> FaceModify {
         let args_empty = args.size_hint().0 == 0;
         let mut sgr_color_thunk = || {
             if args_empty {
-                sgr_color(&mut groups)
+                sgr_color(&mut groups, false)
             } else {
-                sgr_color(&mut args)
+                sgr_color(&mut args, true)
             }
         };
         match cmd {
